@@ -84,6 +84,7 @@ CHECKS = {
     "C03": dict(
         pkg="./csched", level="exploration",
         runs=[
+            dict(name="concshut", run="^TestC03ConcurrentShutdown$", shards=(2, 4)),
             dict(name="realnats", run="^TestC03RealNATS$", checks=(10, 150), shards=(2, 8), shrinktime="5s"),
             dict(name="sched", run="^TestC03Shutdown$", checks=(20000, 120000), shards=(4, 16)),
             dict(name="stress", run="^TestC03Stress$", checks=(1200, 8000), shards=(4, 8)),
